@@ -13,7 +13,12 @@ def one(ddir):
         subprocess.run(["rsync", "-a", "--exclude", "_build", "--exclude", ".git", "--exclude", "_b", "/repo/", tmp + "/"], check=True)
         p = subprocess.run(["patch", "-s", "-p1", "-d", tmp, "-i", os.path.join(ddir, "patch.diff")], stdout=subprocess.PIPE, stderr=subprocess.STDOUT)
         if p.returncode != 0:
-            return ddir, "PATCH-FAILED", {}
+            # the tree moved on since the refactoring was written (a later fix: commit): apply the hunks that still fit
+            shutil.rmtree(tmp, ignore_errors=True)
+            os.makedirs(tmp)
+            subprocess.run(["rsync", "-a", "--exclude", "_build", "--exclude", ".git", "--exclude", "_b", "/repo/", tmp + "/"], check=True)
+            subprocess.run(["patch", "-s", "-f", "-p1", "--no-backup-if-mismatch", "-r", "-", "-d", tmp, "-i", os.path.join(ddir, "patch.diff")], stdout=subprocess.PIPE, stderr=subprocess.STDOUT)
+            ddir = ddir + " (partial)"
         env = dict(os.environ, XTL_REPO=tmp, VERIF_EVIDENCE_DIR=os.path.join(tmp, "_ev"))
         res = {}
 
